@@ -181,6 +181,29 @@ CHECKS.update({
     ),
 })
 
+CHECKS.update({
+    'C03': dict(
+        script='checks/c03.py', category='translation_validation', design='DESIGN.md §4 C03', engine='llsym',
+        text=('Translation validation per program: the real tzcompiler pipeline (extractor, transformer, Arduino generator '
+              'with buffer estimator, zone list, tzdb collector) is run on concrete TZ sources (the 2020d subset reconstructed '
+              'from the shipped tables, and a synthetic source exercising odd-minute offsets, half-hour SAVE, <= / >= / last '
+              'rules, UNTIL suffixes, multi-era zones, links), both scopes; the generated C++ tables are compiled with the '
+              'library to IR and every emitted zone is decided against zic on the same text for every instant of 2000..2049 '
+              '(symbolic t, C01/C02 machinery); every Zone/Link name must be emitted or reported removed, registry order and '
+              'zones.txt are checked. The source text itself is not symbolic.'),
+        technique='translation validation: run the compiler on listed programs, then symbolic execution of the generated tables (llsym) + SMT against zic',
+    ),
+    'C20': dict(
+        script='checks/c20.py', category='other', design='DESIGN.md §4 C20', engine='pysym',
+        text=('Symbolic part: the real PythonGenerator item renderers run by pysym with every numeric field symbolic; the '
+              'rendered Python source is parsed and every rendered field compared with the in-memory field by SMT (lossless '
+              'rendering for all values). Concrete part per program x scope: imported Python tables equal the in-memory tables, '
+              'header counts, zones.txt, basic subset of extended. Determinism is NOT decided by a solver; it is smoke-tested by '
+              'compiling each configuration in two interpreters with different hash seeds and diffing every output file.'),
+        technique='token execution of the Python renderers (pysym + SMT); concrete consistency checks; determinism smoke test (not solver-decided)',
+    ),
+})
+
 NOT_APPLICABLE = {
     'C19': ('the generators are sampling loops around pytz/dateutil tzinfo objects backed by binary tz files and '
             'C-implemented datetime; neither CrossHair nor our symbolic executor can make those symbolic, and a '
